@@ -42,11 +42,14 @@ def mw_case(draw, broker):
                     params = params + ["not_a_signal_argument"]
                 subs.append({"signal": f"{phase}_{op}", "params": params, "required": required, "async": draw(st.booleans()),
                              "behave": draw(st.sampled_from(["ok", "ok", "raise", "sleep", "return-garbage"])),
+                             # what a raising subscriber's exception says (any text: it is data, e.g. a quoted payload)
+                             "text": draw(st.sampled_from(["subscriber failed", "subscriber failed", "{}", "{0}", "{x}", '{"k": 1}', "}{", "%s %(x)s"])),
                              # plain function, method of a middleware object, or function of a middleware class
                              "via": draw(st.sampled_from(["fn", "fn", "obj", "cls"]))})
     return {"broker": broker, "seed": draw(st.integers(0, 999)), "subs": subs,
             "style": {op: draw(st.sampled_from(["pos", "kw", "mixed"])) for op in OP_ARGS},
-            "two_connections": draw(st.booleans()), "other_subs": draw(st.booleans())}
+            "two_connections": draw(st.booleans()), "other_subs": draw(st.booleans()),
+            "log": draw(st.sampled_from([None, None, None, "DEBUG"]))}
 
 
 def make_subscriber(spec: dict, log: list, label: str, loop) -> Any:
@@ -55,7 +58,7 @@ def make_subscriber(spec: dict, log: list, label: str, loop) -> Any:
     params = ", ".join(req + [f"{p}=MISSING" for p in opt])
     body = f"    LOG.append(({label!r}, {spec['signal']!r}, {{{', '.join(repr(p) + ': ' + p for p in spec['params'])}}}, STATE()))\n"
     if spec["behave"] == "raise":
-        body += "    raise RuntimeError('subscriber failed')\n"
+        body += f"    raise RuntimeError({spec.get('text', 'subscriber failed')!r})\n"
     elif spec["behave"] == "sleep" and spec["async"]:
         body += "    await SLEEP(0.05)\n"
     elif spec["behave"] == "return-garbage":
@@ -106,7 +109,7 @@ async def _script(loop, case, out: Outcome, with_subs: bool):
     from repid.data._key import RoutingKey
     from repid.data._parameters import DelayProperties, Parameters, RetriesProperties
 
-    reset_globals()
+    reset_globals(case.get("log"))
     env = Env(case["broker"], loop, case["seed"])
     conn = env.connection("A")
     await conn.connect()
